@@ -135,6 +135,8 @@ def run_world(rng, res, idx):
     nsteps = rng.randint(2, 6)
     spec = dict(model_seed=rng.randrange(10 ** 6), data_seed=rng.randrange(10 ** 6), batch=rng.randint(1, 4), cfg=cfg, history=[('train',)] * nsteps,
                 record=['moments', 'factors'], mixed_cast=mixed)
+    # factors are read back (which waits on their futures) at the last step and a random subset of the others only
+    spec['readback_steps'] = sorted({nsteps - 1} | {t for t in range(nsteps) if rng.random() < 0.5})
     case = dict(idx=idx, kind='world', W=W, cfg=cfg, steps=nsteps, mixed_dtype_model=mixed)
     run = scenario.run(spec, W, seed=rng.randrange(10 ** 6), policy=simdist.POLICIES[idx % len(simdist.POLICIES)])
     if run.inconclusive:
@@ -167,6 +169,8 @@ def run_world(rng, res, idx):
                 A[n] = d * A[n] + (1 - d) * Ma
                 G[n] = d * G[n] + (1 - d) * Mg
         for r in range(W):
+            if recs[r]['factors'][st] is None:
+                continue
             for n in names:
                 res.count('world_factor_checks')
                 Xa, Xg = recs[r]['factors'][st][n]
